@@ -42,7 +42,7 @@ TReadBlock(e) ==
      ELSE p' = p /\ e.pos = p
 
 TInit == tid \in 1..NT /\ l = 1 /\ p = Traces[tid].hdr.p0 /\ MarkInit(tid)
-         /\ (ValsOK \/ Assert(FALSE, <<"fixture values disagree with Values(D)", tid>>))
+         /\ (IF ValsOK THEN TRUE ELSE Assert(FALSE, <<"fixture values disagree with Values(D)", tid>>))
 TNext == /\ l <= Len(Ev)
          /\ LET e == Ev[l] IN
               \/ e.op = "seek" /\ TSeek(e)
